@@ -576,3 +576,30 @@ func init() {
 		return nil
 	}
 }
+
+func init() {
+	un := func(op string) intrinsic {
+		return func(e *Engine, st *State, args []Value, in ssa.Instruction) Value {
+			f, ok := args[0].(FloatV)
+			if !ok || f.T == nil {
+				e.unsupported(st, "math function on a float that is not an encoded float64")
+			}
+			return FloatV{T: FP(op, 64, f.T)}
+		}
+	}
+	intrinsics["math.Sqrt"] = un("fp.sqrt")
+	intrinsics["math.Floor"] = un("fp.floor")
+	intrinsics["math.Ceil"] = un("fp.ceil")
+	intrinsics["math.Trunc"] = un("fp.trunc")
+	intrinsics["math.Abs"] = un("fp.abs")
+	intrinsics["math.Float64bits"] = func(e *Engine, st *State, args []Value, in ssa.Instruction) Value {
+		f, ok := args[0].(FloatV)
+		if !ok || f.T == nil {
+			e.unsupported(st, "math.Float64bits of a float that is not an encoded float64")
+		}
+		return f.T
+	}
+	intrinsics["math.Float64frombits"] = func(e *Engine, st *State, args []Value, in ssa.Instruction) Value {
+		return FloatV{T: args[0].(*Term)}
+	}
+}
